@@ -37,6 +37,8 @@ struct TokenParser {
     parse_steps: usize,
     max_parse_steps: usize,
     budget_exhausted: bool,
+    /// Clauses parsed so far, including those of sub-queries.
+    clause_count: usize,
     /// Parse steps spent on sub-expressions that desugaring copied (see `charge_duplicate`).
     duplicated_steps: usize,
     /// Nesting level of the production being parsed (expressions, patterns, clauses).
@@ -59,6 +61,11 @@ impl TokenParser {
     const BP_NOT: u8 = 40;
     const PARSE_STEP_FACTOR: usize = 2_048;
     const PARSE_STEP_FLOOR: usize = 50_000;
+    /// Every clause, every pattern of a clause, every hop of a pattern and every label
+    /// of a node becomes one more operator nested into the plan, and building, running
+    /// and dropping a plan recurse once per operator: thousands of them overflow the stack.
+    const MAX_CLAUSES_PER_QUERY: usize = 256;
+    const MAX_PATTERN_PARTS: usize = 256;
     /// Desugaring may copy at most this many times the work of parsing the input.
     const DUPLICATION_FACTOR: usize = 64;
     /// Maximum nesting of expressions, patterns and sub-queries. The parser, the
@@ -83,6 +90,7 @@ impl TokenParser {
             parse_steps: 0,
             max_parse_steps,
             budget_exhausted: false,
+            clause_count: 0,
             duplicated_steps: 0,
             nesting: 0,
             nesting_mark: 0,
@@ -100,6 +108,16 @@ impl TokenParser {
         tokens_len
             .saturating_mul(Self::PARSE_STEP_FACTOR)
             .max(Self::PARSE_STEP_FLOOR)
+    }
+
+    fn check_pattern_parts(count: usize) -> Result<(), Error> {
+        if count > Self::MAX_PATTERN_PARTS {
+            Err(Error::Other(
+                "syntax error: QuerySizeLimitExceeded".to_string(),
+            ))
+        } else {
+            Ok(())
+        }
     }
 
     fn nesting_limit_error() -> Error {
@@ -222,6 +240,14 @@ impl TokenParser {
         // Ignore optional trailing semicolons.
         if self.match_token(&TokenType::Semicolon) {
             return Ok(None);
+        }
+        if !self.is_at_end() {
+            self.clause_count += 1;
+            if self.clause_count > Self::MAX_CLAUSES_PER_QUERY {
+                return Err(Error::Other(
+                    "syntax error: QuerySizeLimitExceeded".to_string(),
+                ));
+            }
         }
 
         // Fail-fast on unsupported top-level clauses/keywords.
@@ -352,6 +378,7 @@ impl TokenParser {
         patterns.push(self.parse_pattern()?);
         while self.match_token(&TokenType::Comma) {
             patterns.push(self.parse_pattern()?);
+            Self::check_pattern_parts(patterns.len())?;
         }
         Ok(MatchClause {
             optional: false,
@@ -364,6 +391,7 @@ impl TokenParser {
         patterns.push(self.parse_pattern()?);
         while self.match_token(&TokenType::Comma) {
             patterns.push(self.parse_pattern()?);
+            Self::check_pattern_parts(patterns.len())?;
         }
         Ok(MatchClause {
             optional: true,
@@ -376,6 +404,7 @@ impl TokenParser {
         patterns.push(self.parse_pattern()?);
         while self.match_token(&TokenType::Comma) {
             patterns.push(self.parse_pattern()?);
+            Self::check_pattern_parts(patterns.len())?;
         }
         Ok(CreateClause { patterns })
     }
@@ -698,6 +727,7 @@ impl TokenParser {
                 self.parse_relationship_pattern()?,
             ));
             elements.push(PathElement::Node(self.parse_node_pattern()?));
+            Self::check_pattern_parts(elements.len() / 2)?;
         }
         Ok(Pattern { variable, elements })
     }
@@ -719,6 +749,7 @@ impl TokenParser {
 
         let mut labels = Vec::new();
         while self.match_token(&TokenType::Colon) {
+            Self::check_pattern_parts(labels.len() + 1)?;
             match &self.peek().token_type {
                 TokenType::Identifier(label) => {
                     labels.push(label.clone());
@@ -2155,6 +2186,23 @@ mod tests {
             "RETURN CASE 1 + 2 WHEN 1 THEN 'a' WHEN 3 THEN 'b' ELSE 'c' END, 1 < 2 <= 3 < 4",
         )
         .expect("ordinary simple CASE and comparison chains parse");
+    }
+
+    #[test]
+    fn oversized_operator_pipelines_are_rejected() {
+        let queries = [
+            format!("{}RETURN 1", "UNWIND [1] AS x ".repeat(10_000)),
+            format!("RETURN 1 AS x{}", " UNION ALL RETURN 1 AS x".repeat(10_000)),
+            format!("MATCH (a){} RETURN a", "-->()".repeat(10_000)),
+            format!("CREATE (a){}", ", ()".repeat(10_000)),
+            format!("MATCH (n{}) RETURN n", ":A".repeat(10_000)),
+        ];
+        for query in queries {
+            let err = Parser::parse(&query).expect_err("oversized query must be rejected");
+            assert_eq!(err.to_string(), "syntax error: QuerySizeLimitExceeded");
+        }
+        let batch = format!("{}RETURN 1", "CREATE (:N {v: 1}) ".repeat(200));
+        Parser::parse(&batch).expect("a 200-clause batch parses");
     }
 
     #[test]
